@@ -13,6 +13,7 @@ import (
 	"errors"
 	"fmt"
 	"io"
+	"net"
 	"strings"
 	"sync"
 	"time"
@@ -36,6 +37,12 @@ type ResultSet struct {
 	Types []BStr   `json:"types"`  // declared database type names
 	Rows  [][]Cell `json:"rows"`   // nil cell = NULL
 	ErrAt int      `json:"err_at"` // iteration error instead of row ErrAt (0-based); -1 none
+	// ErrKind: what the iteration error is: "" a plain error, "eof" an error wrapping io.EOF (a dropped
+	// connection), "neteof" a *net.OpError around io.EOF.  NotNull: the driver reports every column as NOT NULL
+	// through RowsColumnTypeNullable (declared nullability is a hint: NULLs still occur, e.g. outer joins).
+	// Neither is visible to the model.
+	ErrKind string `json:"err_kind,omitempty"`
+	NotNull bool   `json:"not_null,omitempty"`
 }
 
 type MemDB struct {
@@ -54,10 +61,10 @@ type MemDB struct {
 	Settle bool
 	// FaultErr: the error an injected failure returns (nil: a plain driver error); e.g. a context error coming
 	// from the driver while the caller's context is still alive
-	FaultErr error
-	cancel     context.CancelFunc
-	Result     *ResultSet
-	rollbackC  chan struct{}
+	FaultErr  error
+	cancel    context.CancelFunc
+	Result    *ResultSet
+	rollbackC chan struct{}
 }
 
 func copyTables(m map[string]*MemTable) map[string]*MemTable {
@@ -553,6 +560,12 @@ func (r *memRows) Columns() []string {
 func (r *memRows) Close() error { return nil }
 func (r *memRows) Next(dest []driver.Value) error {
 	if r.rs.ErrAt >= 0 && r.pos == r.rs.ErrAt {
+		switch r.rs.ErrKind {
+		case "eof":
+			return fmt.Errorf("connection lost while reading rows: %w", io.EOF)
+		case "neteof":
+			return &net.OpError{Op: "read", Net: "tcp", Err: io.EOF}
+		}
 		return errors.New("injected iteration error")
 	}
 	if r.pos >= len(r.rs.Rows) {
@@ -572,6 +585,14 @@ func (r *memRows) Next(dest []driver.Value) error {
 	return nil
 }
 func (r *memRows) ColumnTypeDatabaseTypeName(i int) string { return string(r.rs.Types[i]) }
+
+// ColumnTypeNullable: (nullable, ok); with NotNull the driver claims NOT NULL for every column
+func (r *memRows) ColumnTypeNullable(i int) (bool, bool) {
+	if r.rs.NotNull {
+		return false, true
+	}
+	return false, false
+}
 
 // waitRollback gives database/sql's context watcher time to roll the transaction back.
 func (m *MemDB) waitRollback(d time.Duration) {
